@@ -6,6 +6,7 @@ import (
 	"sync"
 	"sync/atomic"
 	"testing"
+	"time"
 
 	"gopkg.in/typ.v4/sync2"
 	"pgregory.net/rapid"
@@ -148,6 +149,8 @@ type POp struct {
 type PoolSeqCase struct {
 	NewNil bool  `json:"new_nil"`
 	Ops    []POp `json:"ops"`
+	// Kind of the item type T of Pool[T]: 0 *token, 1 any (holding *token), 2 int (the token's serial), 3 struct by value, 4 error (non-empty interface)
+	Kind int `json:"kind,omitempty"`
 }
 
 type stok struct {
@@ -156,25 +159,93 @@ type stok struct {
 	held    bool
 }
 
+type stokVal struct {
+	Serial int
+	Tag    string
+}
+
+type stokErr struct{ tk *stok }
+
+func (e *stokErr) Error() string { return fmt.Sprint("token ", e.tk.serial) }
+
+// gcAndFinalizers runs a garbage collection and waits until the finalizer goroutine has worked through what that
+// collection queued (a finalizer of our own, set just before, has run); 1..3 cycles (things that age per cycle).
+func gcAndFinalizers(cycles int) {
+	for i := 0; i < cycles; i++ {
+		done := make(chan struct{})
+		obj := &struct {
+			p   *int
+			pad [64]byte
+		}{}
+		runtime.SetFinalizer(obj, func(any) { close(done) })
+		obj = nil
+		runtime.GC()
+		select {
+		case <-done:
+		case <-time.After(200 * time.Millisecond):
+		}
+		time.Sleep(200 * time.Microsecond) // the finalizer goroutine works through the rest of its batch
+	}
+}
+
 func RunPoolSeq(c PoolSeqCase) pbt.Outcome {
-	var p sync2.Pool[*stok]
+	reg := map[int]*stok{}
+	switch c.Kind {
+	case 1:
+		return runPoolSeq(c, reg, func(tk *stok) any { return tk }, func(v any) (*stok, bool) { tk, ok := v.(*stok); return tk, ok || v == nil })
+	case 2:
+		return runPoolSeq(c, reg, func(tk *stok) int { return tk.serial }, func(v int) (*stok, bool) { return reg[v], v == 0 || reg[v] != nil })
+	case 3:
+		return runPoolSeq(c, reg, func(tk *stok) stokVal { return stokVal{tk.serial, "t"} }, func(v stokVal) (*stok, bool) {
+			return reg[v.Serial], v == stokVal{} || (reg[v.Serial] != nil && v.Tag == "t")
+		})
+	case 4:
+		return runPoolSeq(c, reg, func(tk *stok) error { return &stokErr{tk} }, func(v error) (*stok, bool) {
+			if v == nil {
+				return nil, true
+			}
+			e, ok := v.(*stokErr)
+			if !ok {
+				return nil, false
+			}
+			return e.tk, true
+		})
+	}
+	return runPoolSeq(c, reg, func(tk *stok) *stok { return tk }, func(v *stok) (*stok, bool) { return v, true })
+}
+
+// runPoolSeq: wrap turns a token into an item of type T, unwrap finds the token of an item (nil token = the zero
+// item; ok=false = an item that is neither a token's item nor the zero value: invented).
+func runPoolSeq[T any](c PoolSeqCase, reg map[int]*stok, wrap func(*stok) T, unwrap func(T) (*stok, bool)) pbt.Outcome {
+	var p sync2.Pool[T]
 	serial, factory := 0, 0
 	install := func() {
 		factory++
 		f := factory
-		p.New = func() *stok { serial++; return &stok{serial: serial, factory: f} }
+		p.New = func() T {
+			serial++
+			tk := &stok{serial: serial, factory: f}
+			reg[serial] = tk
+			return wrap(tk)
+		}
 	}
 	if !c.NewNil {
 		install()
+	} else {
+		// items to Put must come from somewhere: the harness makes them itself
 	}
 	var held []*stok
 	seen := map[*stok]bool{}
-	maxPooled, pooled, reused := 0, 0, 0
+	maxPooled, pooled, reused, gcs, afterGC := 0, 0, 0, 0, 0
 	get := func(step int) string {
-		tk := p.Get()
+		item := p.Get()
+		tk, ok := unwrap(item)
+		if !ok {
+			return fmt.Sprintf("step %d: Get returned %#v, which was never Put and is no result of New", step, item)
+		}
 		if tk == nil {
 			if !c.NewNil || p.New != nil {
-				return fmt.Sprintf("step %d: Get returned nil although New is set", step)
+				return fmt.Sprintf("step %d: Get returned the zero value although New is set", step)
 			}
 			return ""
 		}
@@ -184,6 +255,9 @@ func RunPoolSeq(c PoolSeqCase) pbt.Outcome {
 		if seen[tk] {
 			reused++
 			pooled--
+			if gcs > 0 {
+				afterGC++
+			}
 		} else {
 			// a fresh result of New: it must come from the New function installed NOW
 			if p.New == nil {
@@ -202,7 +276,7 @@ func RunPoolSeq(c PoolSeqCase) pbt.Outcome {
 		tk := held[i]
 		held = append(held[:i], held[i+1:]...)
 		tk.held = false
-		p.Put(tk)
+		p.Put(wrap(tk))
 		pooled++
 		if pooled > maxPooled {
 			maxPooled = pooled
@@ -232,6 +306,9 @@ func RunPoolSeq(c PoolSeqCase) pbt.Outcome {
 			if !c.NewNil {
 				install()
 			}
+		case "gc":
+			gcAndFinalizers(1 + op.A%3)
+			gcs++
 		}
 	}
 	out := pbt.Outcome{Evals: len(c.Ops), NonTrivial: reused > 0 && len(c.Ops) >= 4}
@@ -247,26 +324,39 @@ func RunPoolSeq(c PoolSeqCase) pbt.Outcome {
 	if factory > 1 {
 		out.Labels = append(out.Labels, "New-reassigned")
 	}
+	if gcs > 0 {
+		out.Labels = append(out.Labels, "garbage-collection-in-the-history")
+	}
+	if afterGC > 0 {
+		out.Labels = append(out.Labels, "pooled-item-handed-out-again-after-a-collection")
+	}
+	out.Labels = append(out.Labels, "item-type="+[]string{"*struct", "any", "int", "struct", "error"}[c.Kind%5])
 	return out
 }
 
 var specPoolSeq = pbt.Register(&pbt.Spec[PoolSeqCase]{
 	Property: "C18", Name: "C18.poolseq",
-	Rule: "single goroutine (no race detector: sync.Pool then keeps what is Put): op lists of get / put / putall / batches of up to 100 Gets / reassigning the exported New field; every Get must return an item that is not currently held " +
+	Rule: "single goroutine (no race detector: sync.Pool then keeps what is Put), Pool[T] for T in {*struct, any, int, struct by value, error}: op lists of get / put / putall / batches of up to 100 Gets / reassigning the exported New field / a garbage collection followed by the finalizers it queued; every Get must return an item that was Put or made by New (nothing else), that an item that is not currently held " +
 		"(never handed to two holders), and an item never seen before must be a fresh result of the New function installed at that moment (nil only when New is nil); non-trivial = some pooled item was handed out again",
 	Gen: func(t *rapid.T) PoolSeqCase {
+		withGC := rapid.IntRange(0, 4).Draw(t, "gc?") == 2
 		op := rapid.Custom(func(t *rapid.T) POp {
-			k := rapid.SampledFrom([]string{"get", "get", "get", "put", "put", "putall", "getn", "setnew"}).Draw(t, "k")
+			k := rapid.SampledFrom([]string{"get", "get", "get", "put", "put", "putall", "getn", "setnew", "gc"}).Draw(t, "k")
+			if k == "gc" && !withGC {
+				k = "put"
+			}
 			o := POp{K: k}
 			switch k {
 			case "put":
 				o.A = rapid.IntRange(0, 50).Draw(t, "i")
+			case "gc":
+				o.A = rapid.IntRange(0, 2).Draw(t, "cycles")
 			case "getn":
 				o.A = rapid.SampledFrom([]int{3, 10, 33, 40, 70, 100}).Draw(t, "n")
 			}
 			return o
 		})
-		return PoolSeqCase{NewNil: rapid.IntRange(0, 5).Draw(t, "newnil") == 0, Ops: pbt.OpsOf(t, op, []int{1, 4, 10, 20}, "ops")}
+		return PoolSeqCase{NewNil: rapid.IntRange(0, 5).Draw(t, "newnil") == 0, Kind: rapid.IntRange(0, 4).Draw(t, "kind"), Ops: pbt.OpsOf(t, op, []int{1, 4, 10, 20}, "ops")}
 	},
 	Run: RunPoolSeq, Quick: 5000, Thorough: 50000,
 })
